@@ -139,7 +139,7 @@ func sanitizeExpressionsInScript(src string) string {
 			return b.String()
 		}
 
-		e := strings.Index(src[s:], "}}")
+		e := indexOfPlaceholderEnd(src[s:])
 		if e == -1 {
 			if b.Len() == 0 {
 				return src
@@ -158,6 +158,20 @@ func sanitizeExpressionsInScript(src string) string {
 
 		src = src[e:]
 	}
+}
+
+// indexOfPlaceholderEnd returns the index of "}}" which closes the ${{ }} placeholder starting at the
+// head of src. "}}" in a string literal of the expression does not close the placeholder.
+func indexOfPlaceholderEnd(src string) int {
+	quoted := false
+	for i := len("${{"); i < len(src); i++ {
+		if src[i] == '\'' {
+			quoted = !quoted // An escaped quote '' toggles twice
+		} else if !quoted && strings.HasPrefix(src[i:], "}}") {
+			return i
+		}
+	}
+	return -1
 }
 
 func (rule *RuleShellcheck) runShellcheck(src, shell string, pos *Pos) {
